@@ -12,7 +12,7 @@ paths constrains all programs.  Decided clauses:
   R6  labels: every Label produced by a jump emitter is consumed (patched / recorded / returned)
 """
 import re
-from facts import (call_blocks, cn, callee, cname, roots, op_local, op_place, bool_switch, bool_origin, taint, arg_hits,
+from facts import (call_blocks, cn, callee, cname, roots, op_local, op_place, bool_switch, bool_origin, taint, arg_hits, base_ident,
                    assigns_to_field, place_fields)
 
 CRATES = ["boa_engine"]
@@ -23,10 +23,10 @@ EXPLANATION = (
     "Rust path. Since every compiled code block is produced by these paths, the rule holds for all "
     "programs. Not decided: operand values, depth agreement along exception edges.")
 
+OPT_LABEL = re.compile(r"(\w+::)*Option<boa_engine::bytecompiler::Label>")
 REGTY = "boa_engine::bytecompiler::register::Register"
 REG = re.compile(r"bytecompiler::register::Register(?![A-Za-z_])")
-CONTAINERS = ("std::vec::IntoIter<", "std::vec::Vec<", "std::collections::VecDeque<", "thin_vec::ThinVec<",
-              "smallvec::SmallVec<", "std::vec::Drain<")
+CONTAINERS = ("IntoIter", "Vec", "VecDeque", "ThinVec", "SmallVec", "Drain")
 CONSUMERS = {"IntoIter::next": "iterator exhausted", "Vec::pop": "vector drained", "VecDeque::pop_front": "deque drained",
              "VecDeque::pop_back": "deque drained", "Iterator::next": "iterator exhausted", "ThinVec::pop": "vector drained"}
 
@@ -167,7 +167,7 @@ def r1(db, rep, prop="C03"):
                 ok = bool(rs) and not bad
                 why = "dropped value may come from: " + ", ".join(
                     (cn(r[2]) if r[0] == "call" else f"{r[0]} {r[1:]}") for r in bad)
-            elif ty.startswith(CONTAINERS) and len(p) == 1:
+            elif base_ident(ty) in CONTAINERS and len(p) == 1:
                 g = none_edge_guard(f, p[0], b)
                 ok = g is not None
                 why = "container of registers dropped without being drained to None on this path"
@@ -289,7 +289,7 @@ def r2(db, rep):
                 d = t["dest"]
                 T, stores, ret = taint(f, d[0]) if len(d) == 1 else ({d[0]}, [], False)
                 pops = [bb for bb, tt in f.calls() if cn(tt) == "ByteCompiler::pop_declarative_scope" and arg_hits(tt, T)]
-                drops = [bb for bb, tt in f.calls() if cn(tt) in ("mem::drop", "std::mem::drop") and arg_hits(tt, T)]
+                drops = [bb for bb, tt in f.calls() if cn(tt) == "mem::drop" and arg_hits(tt, T)]
                 if drops and not pops:
                     base = name.split("::{closure")[0]
                     rep.ob("R2", key, base in FUNCTION_LIFETIME_SCOPES,
@@ -564,7 +564,7 @@ def r6(db, rep):
             if len(d) != 1:
                 continue
             ty = f.locals[d[0]]
-            if ty != "boa_engine::bytecompiler::Label" and ty != "std::option::Option<boa_engine::bytecompiler::Label>" \
+            if ty != "boa_engine::bytecompiler::Label" and not OPT_LABEL.fullmatch(ty) \
                     and ty != "(boa_engine::bytecompiler::Label, boa_engine::bytecompiler::Label)":
                 continue
             c = cn(t)
@@ -580,7 +580,7 @@ def r6(db, rep):
                 continue
             users = [bb for bb, tt in f.calls() if bb != b and arg_hits(tt, T)]
             users += [bb for bb, p_ in stores]
-            if ty.startswith("std::option::Option<"):
+            if base_ident(ty) == "Option":
                 # `if let Some(label) = label { patch }`: nothing to patch on the None edge
                 for sb in f.reachable():
                     tt = f.blocks[sb]["t"]
